@@ -51,6 +51,24 @@ def fixed_specs():
     # line numbers that are negative and cross zero (-3 .. 2 and -2 .. 4)
     add(route='segy', shape=[6, 7, 20], bits=4, blockshape=[4, 4, -1], fmt=1, il0=-3, xl0=-2, il_step=1, xl_step=1,
         detection='heuristic')
+    # the SEG-Y fixtures of the repository (duplicated header fields, decimated / reversed / negative line
+    # numbers, negative sample times, microsecond intervals, IEEE samples, 2D lines keyed by either line number)
+    for f, shape, bits, bs, det, extra in (
+            ('small-duplicate-traceheaders.sgy', [5, 5, 50], 4, [4, 4, -1], 'heuristic', {}),
+            ('small-duplicate-traceheaders.sgy', [5, 5, 50], 8, [4, 4, -1], 'thorough', {}),
+            ('small.sgy', [5, 5, 50], 2, [4, 4, -1], 'heuristic', {'iops': True}),
+            ('small-dec.sgy', [3, 3, 50], 4, [4, 4, -1], 'thorough', {}),
+            ('small_reverse_il.sgy', [5, 5, 50], 4, [8, 8, -1], 'heuristic', {}),
+            ('small_negative_il_xl.sgy', [5, 5, 50], 1, [4, 4, -1], 'exhaustive', {}),
+            ('small-negative-samples.sgy', [5, 5, 40], 4, [4, 4, -1], 'heuristic', {}),
+            ('small_us.sgy', [5, 5, 50], 4, [4, 4, -1], 'heuristic', {}),
+            ('small-ieee.sgy', [5, 5, 50], 16, [4, 4, -1], 'heuristic', {}),
+            ('small-irreg-dec.sgy', [3, 3, 50], 4, [4, 4, -1], 'heuristic', {}),
+            ('small-2d-INLINE_3D.sgy', [25, 50], 4, [1, 4, -1], 'heuristic', {}),
+            ('small-2d-CROSSLINE_3D.sgy', [25, 50], 8, [1, 16, -1], 'thorough', {})):
+        add(route='segy_file', file=f, shape=shape, bits=bits, blockshape=bs, detection=det, **extra)
+    # 3 x 3 chunks of two disk blocks each: more chunks than the default chunk cache holds (8)
+    add(route='numpy', shape=[9, 10, 140], bits=16, blockshape=[4, 4, -1])
     return S
 
 
@@ -137,7 +155,10 @@ class Library(list):
     dropped = ()
 
 
-def build(seed, scratch, n_random=0, fixtures=True, max_bytes=600000):
+BIG_SPEC = dict(route='numpy', shape=[8, 1100, 512], bits=16, blockshape=[4, 4, -1], data_seed=31)
+
+
+def build(seed, scratch, n_random=0, fixtures=True, max_bytes=600000, big=False):
     """Returns a Library of entries {name, data, meta, spec or None}.  A fixed spec or a fixture that
     cannot be converted / opened fault-free makes the library unusable: the reader-side checks would
     silently lose a whole class of files, so that is a harness error, never a pass."""
@@ -171,7 +192,7 @@ def build(seed, scratch, n_random=0, fixtures=True, max_bytes=600000):
             continue
         if not usable(m):
             continue
-        lib.append({'name': f"gen{spec['id']}:{spec['route']}:{'x'.join(map(str, spec['shape']))}:"
+        lib.append({'name': f"gen{spec['id']}:{spec.get('file') or spec['route']}:{'x'.join(map(str, spec['shape']))}:"
                             f"b{spec['bits']}:{'x'.join(map(str, m['blockshape']))}"
                             + (f":{spec.get('detection')}" if spec.get('detection') else ''),
                     'data': data, 'meta': m, 'spec': {k: v for k, v in spec.items() if k != 'src'}})
@@ -190,6 +211,18 @@ def build(seed, scratch, n_random=0, fixtures=True, max_bytes=600000):
             if usable(m):
                 lib.append({'name': 'fixture:' + os.path.relpath(p, os.path.join(env.REPO, 'test_data')), 'data': data,
                             'meta': m, 'spec': None})
+    if big:
+        # one large file: an inline group is a single range read of 4.3 MiB, the data section one of 8.6 MiB (code
+        # that treats large requests differently - split, chunked or streamed transfers - is not met otherwise);
+        # the call generators restrict themselves to calls whose cost does not grow with the number of columns
+        spec = dict(BIG_SPEC, id=len(specs))
+        data, _, _ = convert(spec)
+        if data is None:
+            dropped.append('big file: conversion failed')
+        else:
+            m = read_meta(data)
+            m['big'] = True
+            lib.append({'name': f"gen{spec['id']}:big:8x1100x512:b16", 'data': data, 'meta': m, 'spec': spec})
     lib.dropped = dropped
     if dropped:
         raise core.HarnessError('file library incomplete, the reader-side check cannot vouch for anything: '
